@@ -76,11 +76,35 @@ def donors_loop_range(fn):
     range expression text"""
     from ..sir import resolve_alias
 
-    def registers(body):
+    closures = {}
+    for m in walk(fn.body):
+        if m.get("k") == "decl":
+            for v in m["vars"]:
+                ini = strip(v.get("init")) if v.get("init") is not None else None
+                while isinstance(ini, dict) and ini.get("k") == "construct" and len(ini.get("a", [])) == 1:
+                    ini = strip(ini["a"][0])
+                if isinstance(ini, dict) and ini.get("k") == "lambda":
+                    closures[v["d"]] = ini
+
+    def registers(body, depth=0):
+        """the statement registers donor entries: directly, through a helper of the library it calls,
+        or through a closure (held by a local variable or written in place) it calls or passes on"""
         for m in walk(body):
             if m.get("k") in ("binop", "call") and "donors(" in pp(m) and "donors_count(" in pp(m) \
                     and (m.get("op") == "="):
                 return True
+            if depth < 3:
+                sub = None
+                if m.get("k") == "ref" and m.get("d") in closures:
+                    sub = fn.unit.fns.get(closures[m["d"]].get("fid"))
+                elif m.get("k") == "lambda":
+                    sub = fn.unit.fns.get(m.get("fid"))
+                elif m.get("k") == "call" and m.get("fid") is not None:
+                    sub = fn.callee(m)
+                    if sub is not None and sub.cls != fn.cls and not sub.is_lambda:
+                        sub = None          # only helpers of the same implementation class
+                if sub is not None and sub.body is not None and registers(sub.body, depth + 1):
+                    return True
         return False
     for n in walk(fn.body):
         if n.get("k") == "rangefor" and registers(n.get("body")):
